@@ -136,6 +136,10 @@ class ExprMixin:
             return [(st, SV("str", None, v))]
         raise Unsupported("constant %r" % (v,))
 
+    def ev_JoinedStr(self, node, st):
+        # f"...{x!r}...": the text of a message is not modelled (formatting an operand is assumed pure)
+        return [(st, SV("str", None, "<f-string>"))]
+
     def ev_Name(self, node, st):
         n = node.id
         if n in st.env:
@@ -174,6 +178,10 @@ class ExprMixin:
         return self.bind(self.ev(node.value, st), f)
 
     def getattr(self, s, obj, name):
+        if obj.kind == "dtype":
+            return self.dt_getattr(s, obj, name)
+        if obj.kind == "structobj":
+            return self.dt_structattr(s, obj, name)
         if obj.kind == "ref":
             if name in FIELDS or name == "_p_changed":
                 return [(s, self.read_field(s, obj, name))]
@@ -184,11 +192,13 @@ class ExprMixin:
                         "VALUE_SAME_CHECK", "_key_type", "_value_type"):
                 return [(s, self.class_attr(s, obj, name))]
             return [(s, SV("bmeth", None, (obj, name)))]
+        if obj.kind == "any" and name == "bit_length":
+            return [(s, SV("bmeth", None, (obj, name)))]
         if obj.kind == "any" and name in ("_mapping_type", "_set_type"):
             return [(s, SV("cls", None, "Bucket" if name == "_mapping_type" else "Set"))]
         if obj.kind == "cls" and name in ("max_leaf_size", "max_internal_size"):
             return [(s, mk_int(z3.Int("C_" + name)))]
-        if obj.kind in ("list", "tuple", "cls", "func"):
+        if obj.kind in ("list", "tuple", "cls", "func", "super"):
             return [(s, SV("bmeth", None, (obj, name)))]
         raise Unsupported("attribute %s on %s" % (name, obj.kind))
 
@@ -445,6 +455,10 @@ class ExprMixin:
             return az == bz
         if ka == "list" and kb == "list":
             return a.z == b.z
+        if ka == "typeof" and kb == "cls" and isinstance(b.x, str):
+            return self.dt_type_is(s, a, b.x).z
+        if kb == "typeof" and ka == "cls" and isinstance(a.x, str):
+            return self.dt_type_is(s, b, a.x).z
         if "marker" in (ka, kb):
             return z3.BoolVal(ka == kb)
         if "none" in (ka, kb):
